@@ -44,6 +44,31 @@ impl Property for C03 {
             .map_err(|e| Failure::new(format!("returned Element tree differs from the reference inference: {}", e)).with_detail(detail(&src)))?;
         Ok(())
     }
+    fn extra(&self, tier: Tier, seed: u64, st: &mut Stats) -> Result<(), (Failure, Value)> {
+        if tier == Tier::Thorough {
+            let runs = std::env::var("XSGV_FUZZ_RUNS").ok().and_then(|s| s.parse().ok()).unwrap_or(125_000u64);
+            let seeds: Vec<Vec<u8>> = crate::runner::gen_tapes(self, seed ^ 0x7a9e, 200)
+                .into_iter()
+                .map(|t| {
+                    let n = t.a.len().min(1023);
+                    let mut v = vec![(n >> 8) as u8, (n & 255) as u8];
+                    v.extend_from_slice(&t.a[..n]);
+                    v.extend_from_slice(&t.b);
+                    v
+                })
+                .collect();
+            let c = crate::fuzzrun::Campaign { target: "fz_tape", runs_per_worker: runs, workers: 16, seed: seed ^ 0x03, max_len: 2048, seeds };
+            crate::fuzzrun::campaign_for("C03", &c, st)?;
+        }
+        Ok(())
+    }
+    fn replay_custom(&self, payload: &Value) -> Result<(), Failure> {
+        match crate::fuzzrun::replay(payload) {
+            // the tape target runs the oracles of several properties; only this property's verdict counts here
+            Some(Err(f)) if f.msg.starts_with("C03:") => Err(f),
+            _ => Ok(()),
+        }
+    }
     fn rule(&self) -> String {
         "tape-decoded sequences of 1..5 well-formed documents over small per-case name pools (all name classes, 1 in 8 wide), full surface variation; compared with an independent reference inference over the generator's DOM at two observation points (rendered structs, returned Element tree). Non-trivial = the reference schema holds at least one Optional or Vec decision and some position has two or more occurrences; distinct by hash of the structural documents.".into()
     }
